@@ -13,14 +13,19 @@ import (
 // optional Map hops in front. Every top-level and nested Publish call is checked against the
 // delivery rule of the property.
 
-var behaviours = []string{"none", "unsub-self", "unsub-next", "unsub-prev", "sub-new", "publish-nested", "unsub-stale+self"}
+// (the "@outer" variants ignore the values of nested publishes and act on the first value of a top-level
+// Publish: the removal then happens after a nested Publish has come and gone inside the same outer Publish)
+var behaviours = []string{"none", "unsub-self", "unsub-next", "unsub-prev", "sub-new", "publish-nested", "unsub-stale+self",
+	"unsub-self@outer", "unsub-next@outer", "unsub-prev@outer"}
 
 type seqLog struct {
 	ev []string
 }
 
 type seqWorld struct {
-	p     *fpgo.PublisherDef[int]
+	p     *fpgo.PublisherDef[int]    // the publisher the subscribers are registered on
+	src   *fpgo.PublisherDef[int]    // the publisher the values are published on (p itself, or the origin of the Map chain that ends in p)
+	off   int                        // what the Map chain adds to a value on its way from src to p
 	subs  [9]*fpgo.Subscription[int] // live handle of subscriber i (nil: not subscribed)
 	armed [9]bool
 	beh   []string
@@ -54,17 +59,25 @@ func (w *seqWorld) unsubscribe(i int) {
 
 func (w *seqWorld) publish(v int) {
 	w.log = append(w.log, logEv{"pub-begin", 0, v})
-	w.p.Publish(v)
+	if w.src != nil {
+		w.src.Publish(v)
+	} else {
+		w.p.Publish(v)
+	}
 	w.log = append(w.log, logEv{"pub-end", 0, v})
 }
 
 func (w *seqWorld) onNext(i, v int) {
+	v -= w.off
 	w.log = append(w.log, logEv{"deliver", i, v})
 	if i >= w.n || !w.armed[i] {
 		return
 	}
+	if strings.HasSuffix(w.beh[i], "@outer") && v >= 100 {
+		return
+	}
 	w.armed[i] = false
-	switch w.beh[i] {
+	switch strings.TrimSuffix(w.beh[i], "@outer") {
 	case "unsub-self":
 		w.unsubscribe(i)
 	case "unsub-stale+self": // first a handle that is not registered (never was / already removed), then itself
@@ -210,8 +223,17 @@ func reentrant(r *lib.Report, tier string) (int64, int64, []interface{}) {
 	seen := map[string]bool{}
 	var hist []int
 	var rec func(d int)
-	run := func(beh [3]string, h []int) (string, string) {
+	run := func(beh [3]string, h []int, hops int) (string, string) {
 		w := &seqWorld{p: fpgo.PublisherNewGenerics[int](), beh: beh[:], n: 3, armed: [9]bool{true, true, true}}
+		if hops > 0 {
+			// the subscribers sit on the last stage of a Map chain, the values enter at its origin
+			w.src = w.p
+			for k := 1; k <= hops; k++ {
+				add := 1000 * k
+				w.p = w.p.Map(func(v int) int { return v + add })
+				w.off += add
+			}
+		}
 		v := 0
 		msg := lib.Catch(func() {
 			for _, o := range h {
@@ -246,24 +268,27 @@ func reentrant(r *lib.Report, tier string) (int64, int64, []interface{}) {
 		if d > 0 && hist[len(hist)-1] == 6 {
 			// evaluate every history that ends with a publish
 			for _, beh := range behs {
-				trans++
-				msg, aux := run(beh, hist)
-				if msg != "" {
-					names := make([]string, len(hist))
-					for i, o := range hist {
-						names[i] = ops[o]
-					}
-					r.Violation("C10|reentrant|"+aux, fmt.Sprintf("callbacks %v, history %v: %s", beh, names, msg),
-						map[string]interface{}{"callback_behaviours": beh, "history": names, "failure": msg})
-				} else if !seen[aux] {
-					seen[aux] = true
-					states++
-					if len(samples) < 2 && d >= 3 {
+				for hops := 0; hops <= 2; hops++ {
+					trans++
+					msg, aux := run(beh, hist, hops)
+					aux = fmt.Sprintf("%s (subscribers %d Map hop(s) behind the publisher)", aux, hops)
+					if msg != "" {
 						names := make([]string, len(hist))
 						for i, o := range hist {
 							names[i] = ops[o]
 						}
-						samples = append(samples, map[string]interface{}{"callback_behaviours": beh, "history": names})
+						r.Violation("C10|reentrant|"+aux, fmt.Sprintf("callbacks %v, history %v, subscribers %d Map hop(s) behind the publisher the values are published on: %s", beh, names, hops, msg),
+							map[string]interface{}{"callback_behaviours": beh, "history": names, "map_hops": hops, "failure": msg})
+					} else if !seen[aux] {
+						seen[aux] = true
+						states++
+						if len(samples) < 2 && d >= 3 {
+							names := make([]string, len(hist))
+							for i, o := range hist {
+								names[i] = ops[o]
+							}
+							samples = append(samples, map[string]interface{}{"callback_behaviours": beh, "history": names})
+						}
 					}
 				}
 			}
